@@ -32,7 +32,7 @@ ASSUMPTIONS = ["list.sort / sorted produce a total order consistent with the com
 def o1(ctx: Ctx):
     """O1 activity is monotone: `_active` becomes True only at construction (R06.1)."""
     out = []
-    for o in c06.r06_1(ctx):
+    for o in c06.r06_1(ctx, monotone_only=True):
         o.rule = "C08.O1"
         out.append(o)
     return out
@@ -271,15 +271,20 @@ def o4(ctx: Ctx):
         # also accept  len(C) > limit - A   /   A > limit - len(C)
         if isinstance(op, (ast.Gt, ast.GtE)) and isinstance(r, ast.BinOp) and isinstance(r.op, ast.Sub) and canon(r.left) == f"{sn}.limit" and not (isinstance(l, ast.BinOp) and isinstance(l.op, ast.Add)):
             l, r = ast.BinOp(left=l, op=ast.Add(), right=r.right), r.left
-        if isinstance(op, (ast.Gt, ast.GtE)) and canon(r) == f"{sn}.limit" and isinstance(l, ast.BinOp) and isinstance(l.op, ast.Add):
+        from ..core import _split_offset
+
+        rb, roff = _split_offset(r)
+        if isinstance(op, (ast.Gt, ast.GtE)) and canon(rb) == f"{sn}.limit" and isinstance(l, ast.BinOp) and isinstance(l.op, ast.Add):
             parts = [l.left, l.right]
             lens = [p for p in parts if isinstance(p, ast.Call) and norm(p.func) == "len" and isinstance(p.args[0], ast.Name)]
             rest = [p for p in parts if p not in lens]
             if len(lens) == 1 and len(rest) == 1:
                 C = lens[0].args[0].id
                 A = rest[0]
-                shape = True
-                okg = isinstance(op, ast.Gt)
+                # A + len(C) > limit + k: k > 0 lets more than `limit` through; `>=` (k = -1) indexes one past the sorted list
+                eff = roff - (1 if isinstance(op, ast.GtE) else 0)
+                shape = eff != 0
+                okg = eff == 0
     if not okg:
         obs.append(ctx.ob("C08.O4", f, G.test, status=VIOLATION if shape else INCONCLUSIVE, detail=f"guard is `{norm(G.test)}`, not `active + len(candidates) > limit` (with `>=` or another bound the else-branch no longer guarantees active + candidates <= limit)", construct="guard"))
         return obs
@@ -314,8 +319,16 @@ def o4(ctx: Ctx):
             st_a, why_a = OK, "all demes of the target level are counted (an over-count: the bound still holds)"
         elif src_levels and not src_ok:
             st_a, why_a = VIOLATION, f"`{norm(Aexp)[:70]}` counts demes of `{norm(g.iter)}`, not of the target level {tree_p}.levels[{lv} + 1] (an under-count lets the level overflow)"
+        elif src_ok and counts_elems and f"{v}.is_active" in conds and len(conds) > 1:
+            st_a, why_a = VIOLATION, f"`{norm(Aexp)[:90]}` counts only some of the active demes of the target level (an under-count lets the level overflow)"
+        elif src_ok and counts_elems and len(conds) == 1 and isinstance(g.ifs[0], ast.BoolOp) and isinstance(g.ifs[0].op, ast.And) and any(canon(x) == f"{v}.is_active" for x in g.ifs[0].values):
+            st_a, why_a = VIOLATION, f"`{norm(Aexp)[:90]}` counts only some of the active demes of the target level (an under-count lets the level overflow)"
         elif src_ok and counts_elems and conds and all(re.fullmatch(r"not" + re.escape(v) + r"\.is_active|" + re.escape(v) + r"\.is_active(==|is)False", c) for c in conds):
             st_a, why_a = VIOLATION, f"`{norm(Aexp)[:70]}` counts the INACTIVE demes of the target level"
+    elif isinstance(Aexp, ast.Call) and norm(Aexp.func) in ("len", "sum") and Aexp.args and isinstance(Aexp.args[0], (ast.ListComp, ast.GeneratorExp)) and len(Aexp.args[0].generators) == 2 and canon(Aexp.args[0].generators[1].iter).endswith(".children"):
+        g1, g2 = Aexp.args[0].generators
+        if isinstance(g1.target, ast.Name) and canon(g2.iter) == f"{g1.target.id}.children" and not canon(g1.iter, {k: d for k, d in defs.items() if k != lv}).startswith((f"{tree_p}.levels[{lv}]", f"{tree_p}._levels[{lv}]")):
+            st_a, why_a = VIOLATION, f"`{norm(Aexp)[:90]}` counts only the children of `{norm(g1.iter)}` (the parents that have candidates this round), not every active deme of the target level: an under-count lets the level overflow"
     elif isinstance(Aexp, ast.Constant):
         st_a, why_a = VIOLATION, f"the number of active demes is taken to be the constant {norm(Aexp)}"
     obs.append(ctx.ob("C08.O4", f, Aexp, status=st_a, detail="active = number of is_active demes on the target level" if st_a == OK and why_a.startswith("cannot") else why_a, construct="active-count"))
@@ -371,7 +384,8 @@ def o4(ctx: Ctx):
     g = comp.generators[0]
     wl = [n for n in ast.walk(G) if isinstance(n, ast.For) and any(x is W for x in ast.walk(n))]
     ok_w = len(wl) == 1 and isinstance(wl[0].target, ast.Name) and norm(wl[0].iter) == D and canon(W.targets[0]) == f"{cand_p}[{wl[0].target.id}].individuals" and len(comp.generators) == 1 and canon(g.iter) == f"{cand_p}[{wl[0].target.id}].individuals" and isinstance(g.target, ast.Name) and norm(comp.elt) == g.target.id and len(g.ifs) == 1
-    obs.append(ctx.ob("C08.O4", f, W, status=OK if ok_w else INCONCLUSIVE, detail=f"every list counted in `{C}` is filtered in place by one predicate" if ok_w else f"the lists filtered after the cut are not exactly the per-parent lists of `{D}` counted in `{C}` (some counted candidates escape the cut)", construct="write-back"))
+    wb_partial = len(wl) == 1 and isinstance(wl[0].iter, ast.Subscript) and norm(wl[0].iter.value) == D
+    obs.append(ctx.ob("C08.O4", f, W, status=OK if ok_w else VIOLATION if wb_partial else INCONCLUSIVE, detail=f"every list counted in `{C}` is filtered in place by one predicate" if ok_w else f"the lists filtered after the cut are not exactly the per-parent lists of `{D}` counted in `{C}` (some counted candidates escape the cut)", construct="write-back"))
     if not ok_w:
         return obs
     ind = g.target.id
@@ -443,8 +457,9 @@ def o5(ctx: Ctx):
         arg = ast.parse(m.group(1), mode="eval").body
         base, off = _split_offset(arg)
         bt = canon(base)
-        if bt in (f"len({tree_p}.levels[:-1])", f"len({tree_p}._levels[:-1])") and off == 0:
-            st_l = OK
+        msl = re.fullmatch(r"len\(" + re.escape(tree_p) + r"\._?levels\[:-(\d+)\]\)", bt)
+        if msl:
+            st_l = OK if (int(msl.group(1)) - off) == 1 else VIOLATION
         elif bt in (f"len({tree_p}.levels)", f"len({tree_p}._levels)", f"{tree_p}.height"):
             st_l = OK if off == -1 else VIOLATION
     elif m:
@@ -479,7 +494,7 @@ def o7(ctx: Ctx):
     from . import c13
 
     out = []
-    for o in c13.r13_4(ctx):
+    for o in c13.r13_4(ctx, strict_ties=True):
         o.rule = "C08.O7"
         out.append(o)
     return out
